@@ -21,7 +21,7 @@ COMPONENTS = {
     'stub': ['event loop scheduler (detsim.SimLoop)', 'ASGI server + client (detsim.asgi_sim.Conn)',
              'responder script interpreter', 'binary media handler'],
 }
-EXPECTED_PROBES = ('queue_full', 'recv_cancelled', 'disconnect_while_full', 'recv_blocked',
+EXPECTED_PROBES = ('queue_full', 'recv_cancelled', 'send_bg', 'disconnect_while_full', 'recv_blocked',
                    'final_disconnect_injected', 'pump_in_hand')
 ASSUMPTIONS = (
     'ready callbacks run FIFO as asyncio guarantees; only environment timing varies',
@@ -38,7 +38,7 @@ def gen_script(ch):
     n = 1 + ch.draw(9, 'n_ops')
     sent = 0
     for _ in range(n):
-        k = ch.weighted([5, 3, 3, 2, 1, 1], 'op')
+        k = ch.weighted([5, 3, 3, 2, 1, 1, 2], 'op')
         if k == 0:
             ops.append(('recv', ch.choice(['text', 'text', 'data', 'media'], 'rk')))
         elif k == 1:
@@ -57,6 +57,9 @@ def gen_script(ch):
         elif k == 4:
             ops.append(('close', ch.choice([None, 1000, 3000, 4001], 'code')))
             break
+        elif k == 6:
+            ops.append(('send_bg', 's%d' % sent))
+            sent += 1
         else:
             ops.append(('return',))
             break
@@ -215,6 +218,8 @@ ALLOWED_EXC = {
     'accept': ('WebSocketDisconnected',),
     'close': (),
     'pause': (),
+    'send_bg': (),
+    'join': (),
     'return': (),
 }
 
